@@ -497,7 +497,10 @@ def run(R):
     sflds = E.struct_fields(P, SEA)
     sreach = P.reachable([R.need_fn(SEL)])
     sinert = E.inert_fields(P, SEA, sreach)
-    carried = [n_ for n_, t_ in sflds.items() if "DistinctValues" not in t_ and n_ not in sinert]
+    from .rules_c08 import distinct_add_fn
+    daf = distinct_add_fn(P)
+    dset = re.sub(r"<.*$", "", daf.local_ty(1)[5:]) if daf is not None else "sqlgrep::execution::helpers::DistinctValues"
+    carried = [n_ for n_, t_ in sflds.items() if "DistinctValues" not in t_ and not t_.startswith(dset) and n_ not in sinert]
     if carried:
         R.violation("C03.rowstate", "SelectExecutionEngine|" + ",".join(sorted(carried)),
                     "SelectExecutionEngine carries %s from row to row: a projection can be answered from an earlier row's value instead of being "
